@@ -843,6 +843,33 @@ async fn run_scenario(sc: &Value, dir: &str, rec: &Rec) -> String {
             "roundtrip" => roundtrip(&yaml_of(&op["yaml"])),
             "store" => store_op(&rig.engine, op),
             "api" => api_op(&ex, op),
+            "probe_acts" => {
+                // "nothing can later be acted on": once the process has ended (and, optionally, has been dropped from the
+                // cache so that the client's call loads it from the store) try to complete every act task it has
+                let pid = s(op, "pid", "p1").to_string();
+                if op.get("evict").and_then(|x| x.as_bool()).unwrap_or(false) {
+                    rig.engine.verif_uncache(&pid);
+                }
+                let mut tried = 0;
+                let mut accepted: Vec<Value> = vec![];
+                let mut ended = false;
+                if let Some(p) = rig.engine.executor().proc().get_process(&pid) {
+                    ended = p.state().is_completed();
+                    if ended {
+                        let mut ts = p.tasks();
+                        ts.sort_by_key(|t| t.timestamp);
+                        for t in ts.iter().filter(|t| t.node().kind().to_string() == "act") {
+                            tried += 1;
+                            let state = t.state().to_string();
+                            let (ok, _) = do_action(&ex, &sh, &pid, &t.id, s(op, "action", "next"), &json!({}), "probe");
+                            if ok {
+                                accepted.push(json!({"tid": t.id, "nid": t.node().id(), "state": state}));
+                            }
+                        }
+                    }
+                }
+                json!({"ended": ended, "tried": tried, "accepted": accepted})
+            }
             "yield" => {
                 // let the other tasks of the runtime take n turns (on a current-thread runtime: exactly n rounds of
                 // the run queue), without waiting for quiescence
